@@ -29,10 +29,13 @@ func s3Sign(v, ref, scale float64, up, down strategy.Action) RuleVal {
 	if Near(v, ref, scale) {
 		return RuleVal{Exempt: true}
 	}
-	if v > ref {
+	switch {
+	case v > ref:
 		return RuleVal{A: up}
+	case v < ref:
+		return RuleVal{A: down}
 	}
-	return RuleVal{A: down}
+	return RuleVal{} // unordered (NaN): neither test holds
 }
 
 // s3Levels is the two-threshold rule of a bounded oscillator: value <= lowAt
@@ -130,7 +133,7 @@ func s3Triple(s strategy.Strategy, snaps []*asset.Snapshot, o s3TripleOpt) []Rul
 		if !ok || !okm {
 			continue
 		}
-		if Near(cur, x.SellAt, 1) {
+		if NearNF(cur, x.SellAt, 1) {
 			out[i].Exempt = true
 			continue
 		}
@@ -143,7 +146,7 @@ func s3Triple(s strategy.Strategy, snaps []*asset.Snapshot, o s3TripleOpt) []Rul
 		// is definitely false.
 		no, undecided := false, false
 		clause := func(a, b float64, scale float64, pass func(a, b float64) bool) {
-			if Near(a, b, scale) {
+			if NearNF(a, b, scale) {
 				undecided = true
 			} else if !pass(a, b) {
 				no = true
